@@ -7,14 +7,19 @@ namespace Xdsl.Liveness
 
 /-! ## Specification -/
 
-/-- `v` is demanded at a boundary: a pre-seeded / exit value, or an operand of an op that is not
-trivially removable (`would_be_trivially_dead(op) = False`: side effects, terminator such as
-`func.return`, symbol op). -/
-def Root (p : Prog) (v : Nat) : Prop :=
-  v ∈ p.seeds ∨ v ∈ p.exits ∨ ∃ op ∈ p.ops, op.wbd = false ∧ v ∈ op.operands
+/-- the parent block of `op` is marked executable at some time (before or after the initialisation
+of the liveness analysis) — ops of other blocks are never looked at by the analysis -/
+def ExecP (p : Prog) (op : Op) : Prop := op.blk ∈ p.pre ∨ op.blk ∈ p.post
 
-/-- `a` is an operand of an op that has `b` among its results. -/
-def Feeds (p : Prog) (a b : Nat) : Prop := ∃ op ∈ p.ops, a ∈ op.operands ∧ b ∈ op.results
+/-- `v` is demanded at a boundary: a pre-seeded / exit value, or an operand of an op (in an executable
+block) that is not trivially removable (`would_be_trivially_dead(op) = False`: side effects,
+terminator such as `func.return`, symbol op). -/
+def Root (p : Prog) (v : Nat) : Prop :=
+  v ∈ p.seeds ∨ v ∈ p.exits ∨ ∃ op ∈ p.ops, ExecP p op ∧ op.wbd = false ∧ v ∈ op.operands
+
+/-- `a` is an operand of an op (in an executable block) that has `b` among its results. -/
+def Feeds (p : Prog) (a b : Nat) : Prop :=
+  ∃ op ∈ p.ops, ExecP p op ∧ a ∈ op.operands ∧ b ∈ op.results
 
 /-- The specified liveness: the least set containing the roots and closed under "operand of an op
 with a live result" (restricted to the value ids `< nvals` that have a lattice). -/
@@ -38,6 +43,12 @@ theorem mark_reg (p : Prog) (st : St) (v : Nat) : (mark p st v).reg = st.reg := 
 
 theorem mark_trace (p : Prog) (st : St) (v : Nat) : (mark p st v).trace = st.trace := by
   unfold mark; split <;> rfl
+
+theorem mark_exec (p : Prog) (st : St) (v : Nat) : (mark p st v).exec = st.exec := by
+  unfold mark; split <;> rfl
+
+theorem isExec_congr {s st : St} (h : s.exec = st.exec) (b : Nat) : isExec s b = isExec st b := by
+  unfold isExec; rw [h]
 
 theorem mark_len (p : Prog) (st : St) (v : Nat) : (mark p st v).live.length = st.live.length := by
   unfold mark; split <;> simp
@@ -130,6 +141,11 @@ theorem markAll_trace (p : Prog) (st : St) (vs : List Nat) : (markAll p st vs).t
   induction vs generalizing st with
   | nil => rfl
   | cons v vs ih => rw [markAll_cons, ih, mark_trace]
+
+theorem markAll_exec (p : Prog) (st : St) (vs : List Nat) : (markAll p st vs).exec = st.exec := by
+  induction vs generalizing st with
+  | nil => rfl
+  | cons v vs ih => rw [markAll_cons, ih, mark_exec]
 
 theorem markAll_len (p : Prog) (st : St) (vs : List Nat) :
     (markAll p st vs).live.length = st.live.length := by
@@ -282,7 +298,9 @@ def visitBody (p : Prog) (j : Nat) (op : Op) (st : St) : St :=
 theorem visit_eq (p : Prog) (j : Nat) (st : St) :
     visit p j st = match p.ops[j]? with
       | none => st
-      | some op => if op.operands.isEmpty then st else visitBody p j op st := rfl
+      | some op =>
+        if op.operands.isEmpty then st
+        else if !isExec st op.blk then st else visitBody p j op st := rfl
 
 theorem isLive_st0 (j : Nat) (st : St) (v : Nat) : isLive (st0 j st) v = isLive st v := rfl
 
@@ -311,6 +329,15 @@ theorem visitBody_trace (p : Prog) (j : Nat) (op : Op) (st : St) :
     (visitBody p j op st).trace = st.trace :=
   visitBody_ind (fun s => s.trace = st.trace) p j op st rfl
     (fun s h => by rw [markAll_trace]; exact h)
+
+theorem visitBody_exec (p : Prog) (j : Nat) (op : Op) (st : St) :
+    (visitBody p j op st).exec = st.exec :=
+  visitBody_ind (fun s => s.exec = st.exec) p j op st rfl
+    (fun s h => by rw [markAll_exec]; exact h)
+
+theorem visitBody_wl_sub (p : Prog) (j : Nat) (op : Op) (st : St) (x : Nat) (hx : x ∈ st.wl) :
+    x ∈ (visitBody p j op st).wl :=
+  visitBody_ind (fun s => x ∈ s.wl) p j op st hx (fun s h => markAll_wl_sub p s _ x h)
 
 theorem visitBody_pot (p : Prog) (j : Nat) (op : Op) (st : St) :
     pot p (visitBody p j op st) ≤ pot p st :=
@@ -350,13 +377,13 @@ theorem visitBody_stable (p : Prog) (j : Nat) (op : Op) (st : St) (hlen : st.liv
     · exact absurd (List.any_eq_true.2 ⟨r, hr, hrl⟩) hany
 
 theorem visitBody_sound (p : Prog) (j : Nat) (op : Op) (st : St) (hop : op ∈ p.ops)
-    (hlen : st.live.length = p.nvals) (hs : Sound p st) : Sound p (visitBody p j op st) := by
+    (hex : ExecP p op) (hlen : st.live.length = p.nvals) (hs : Sound p st) : Sound p (visitBody p j op st) := by
   have h1 : Sound p (st1 p j op st) := by
     unfold st1
     cases hw : op.wbd
     · simp only [Bool.false_eq_true, if_false]
       exact markAll_sound p _ _ hs hlen
-        (fun v hv hlt => Live.root hlt (Or.inr (Or.inr ⟨op, hop, hw, hv⟩)))
+        (fun v hv hlt => Live.root hlt (Or.inr (Or.inr ⟨op, hop, hex, hw, hv⟩)))
     · simp only [if_true]
       exact hs
   unfold visitBody
@@ -364,7 +391,7 @@ theorem visitBody_sound (p : Prog) (j : Nat) (op : Op) (st : St) (hop : op ∈ p
   · rename_i hany
     obtain ⟨r, hr, hrl⟩ := List.any_eq_true.1 hany
     exact markAll_sound p _ _ h1 (by rw [st1_len, hlen])
-      (fun v hv hlt => Live.step hlt ⟨op, hop, hv, hr⟩ (h1 r hrl))
+      (fun v hv hlt => Live.step hlt ⟨op, hop, hex, hv, hr⟩ (h1 r hrl))
   · exact h1
 
 /-! ## The solver invariant -/
@@ -374,20 +401,27 @@ structure Inv (p : Prog) (st : St) : Prop where
   rlen : st.reg.length = p.ops.length
   sound : Sound p st
   sched : SchedAll p st
+  /-- only blocks of `pre`/`post` are ever executable -/
+  execSub : ∀ b, isExec st b = true → b ∈ p.pre ∨ b ∈ p.post
+  /-- an op is registered only while its block is executable -/
+  regExec : ∀ i op, p.ops[i]? = some op → st.reg.getD i false = true → isExec st op.blk = true
 
 theorem visit_inv (p : Prog) (j : Nat) (st : St) (hlen : st.live.length = p.nvals)
     (hrlen : st.reg.length = p.ops.length) (hsound : Sound p st)
-    (hsched : SchedOn (fun i => i ≠ j) p st) : Inv p (visit p j st) := by
+    (hsched : SchedOn (fun i => i ≠ j) p st)
+    (hex : ∀ b, isExec st b = true → b ∈ p.pre ∨ b ∈ p.post)
+    (hre : ∀ i op, p.ops[i]? = some op → st.reg.getD i false = true → isExec st op.blk = true) :
+    Inv p (visit p j st) := by
   rw [visit_eq]
   split
   · rename_i hnone
-    refine ⟨hlen, hrlen, hsound, ?_⟩
+    refine ⟨hlen, hrlen, hsound, ?_, hex, hre⟩
     intro i op hop hreg _
     exact hsched i op hop hreg (by rintro rfl; rw [hnone] at hop; cases hop)
   · rename_i op hsome
     split
     · rename_i hemp
-      refine ⟨hlen, hrlen, hsound, ?_⟩
+      refine ⟨hlen, hrlen, hsound, ?_, hex, hre⟩
       intro i op' hop hreg _
       by_cases hij : i = j
       · subst hij
@@ -396,14 +430,37 @@ theorem visit_inv (p : Prog) (j : Nat) (st : St) (hlen : st.live.length = p.nval
         intro _ o ho
         rw [List.isEmpty_iff.1 hemp] at ho; cases ho
       · exact hsched i op' hop hreg hij
-    · refine ⟨by rw [visitBody_len]; exact hlen, by rw [visitBody_reg, List.length_set]; exact hrlen,
-        visitBody_sound p j op st (List.mem_of_getElem? hsome) hlen hsound, ?_⟩
-      intro i op' hop hreg _
-      by_cases hij : i = j
-      · subst hij
-        rw [hsome] at hop; cases hop
-        exact Or.inr (visitBody_stable p i op st hlen)
-      · exact visitBody_schedOn p j op st hsched i op' hop hreg hij
+    · split
+      · rename_i hgate
+        refine ⟨hlen, hrlen, hsound, ?_, hex, hre⟩
+        intro i op' hop hreg _
+        by_cases hij : i = j
+        · subst hij
+          rw [hsome] at hop; cases hop
+          have := hre i _ hsome hreg
+          rw [this] at hgate; cases hgate
+        · exact hsched i op' hop hreg hij
+      · rename_i hgate
+        have hx : isExec st op.blk = true := by simpa using hgate
+        refine ⟨by rw [visitBody_len]; exact hlen, by rw [visitBody_reg, List.length_set]; exact hrlen,
+          visitBody_sound p j op st (List.mem_of_getElem? hsome) (hex _ hx) hlen hsound, ?_, ?_, ?_⟩
+        · intro i op' hop hreg _
+          by_cases hij : i = j
+          · subst hij
+            rw [hsome] at hop; cases hop
+            exact Or.inr (visitBody_stable p i op st hlen)
+          · exact visitBody_schedOn p j op st hsched i op' hop hreg hij
+        · intro b hb
+          rw [isExec_congr (visitBody_exec p j op st)] at hb
+          exact hex b hb
+        · intro i op' hop hreg
+          rw [isExec_congr (visitBody_exec p j op st)]
+          rw [visitBody_reg] at hreg
+          by_cases hij : i = j
+          · subst hij
+            rw [hsome] at hop; cases hop
+            exact hx
+          · exact hre i op' hop (getD_set_true_ne st.reg j i hij hreg)
 
 theorem visit_pot (p : Prog) (j : Nat) (st : St) : pot p (visit p j st) ≤ pot p st := by
   rw [visit_eq]
@@ -411,7 +468,9 @@ theorem visit_pot (p : Prog) (j : Nat) (st : St) : pot p (visit p j st) ≤ pot 
   · exact Nat.le_refl _
   · split
     · exact Nat.le_refl _
-    · exact visitBody_pot p j _ st
+    · split
+      · exact Nat.le_refl _
+      · exact visitBody_pot p j _ st
 
 theorem visit_le (p : Prog) (j : Nat) (st : St) : Le st (visit p j st) := by
   rw [visit_eq]
@@ -419,7 +478,30 @@ theorem visit_le (p : Prog) (j : Nat) (st : St) : Le st (visit p j st) := by
   · exact Le.refl _
   · split
     · exact Le.refl _
-    · exact visitBody_le p j _ st
+    · split
+      · exact Le.refl _
+      · exact visitBody_le p j _ st
+
+theorem visit_exec (p : Prog) (j : Nat) (st : St) : (visit p j st).exec = st.exec := by
+  rw [visit_eq]
+  split
+  · rfl
+  · split
+    · rfl
+    · split
+      · rfl
+      · exact visitBody_exec p j _ st
+
+theorem visit_wl_sub (p : Prog) (j : Nat) (st : St) (x : Nat) (hx : x ∈ st.wl) :
+    x ∈ (visit p j st).wl := by
+  rw [visit_eq]
+  split
+  · exact hx
+  · split
+    · exact hx
+    · split
+      · exact hx
+      · exact visitBody_wl_sub p j _ st x hx
 
 theorem visit_trace (p : Prog) (j : Nat) (st : St) : (visit p j st).trace = st.trace := by
   rw [visit_eq]
@@ -427,10 +509,13 @@ theorem visit_trace (p : Prog) (j : Nat) (st : St) : (visit p j st).trace = st.t
   · rfl
   · split
     · rfl
-    · exact visitBody_trace p j _ st
+    · split
+      · rfl
+      · exact visitBody_trace p j _ st
 
 theorem visit_reg_self (p : Prog) (j : Nat) (st : St) (op : Op) (hop : p.ops[j]? = some op)
-    (hne : op.operands ≠ []) (hrlen : st.reg.length = p.ops.length) :
+    (hne : op.operands ≠ []) (hrlen : st.reg.length = p.ops.length)
+    (hx : isExec st op.blk = true) :
     (visit p j st).reg.getD j false = true := by
   have hj : j < p.ops.length := by
     apply Classical.byContradiction; intro hn
@@ -441,7 +526,7 @@ theorem visit_reg_self (p : Prog) (j : Nat) (st : St) (op : Op) (hop : p.ops[j]?
     cases h : op.operands with
     | nil => exact absurd h hne
     | cons a l => rfl
-  simp only [this, Bool.false_eq_true, if_false]
+  simp only [this, Bool.false_eq_true, if_false, hx, Bool.not_true]
   rw [visitBody_reg]
   exact getD_set_true_self _ _ (by rw [hrlen]; exact hj)
 
@@ -488,7 +573,7 @@ theorem replicate_false_getD (n i : Nat) : (List.replicate n false).getD i false
   split <;> rfl
 
 theorem init0_inv (p : Prog) : Inv p (init0 p) := by
-  refine ⟨by simp [init0, foldl_set_len], by simp [init0], ?_, ?_⟩
+  refine ⟨by simp [init0, foldl_set_len], by simp [init0], ?_, ?_, ?_, ?_⟩
   · intro v hv
     have hv' : (p.seeds.foldl (fun l v => l.set v true) (List.replicate p.nvals false)).getD v false
         = true := hv
@@ -497,6 +582,13 @@ theorem init0_inv (p : Prog) : Inv p (init0 p) := by
     · cases h
     · exact Live.root (by simpa using h2) (Or.inl h1)
   · intro i op _ hreg _
+    have : (List.replicate p.ops.length false).getD i false = true := hreg
+    rw [replicate_false_getD] at this
+    cases this
+  · intro b hb
+    have : p.pre.contains b = true := hb
+    exact Or.inl (by simpa using this)
+  · intro i op _ hreg
     have : (List.replicate p.ops.length false).getD i false = true := hreg
     rw [replicate_false_getD] at this
     cases this
@@ -513,7 +605,13 @@ theorem walk_inv (p : Prog) (js : List Nat) (st : St) (h : Inv p st) : Inv p (wa
   induction js generalizing st with
   | nil => exact h
   | cons j js ih =>
-    exact ih _ (visit_inv p j st h.len h.rlen h.sound (fun i op hop hreg _ => h.sched i op hop hreg trivial))
+    exact ih _ (visit_inv p j st h.len h.rlen h.sound
+      (fun i op hop hreg _ => h.sched i op hop hreg trivial) h.execSub h.regExec)
+
+theorem walk_exec (p : Prog) (js : List Nat) (st : St) : (walk p js st).exec = st.exec := by
+  induction js generalizing st with
+  | nil => rfl
+  | cons j js ih => exact (ih _).trans (visit_exec p j st)
 
 theorem walk_le (p : Prog) (js : List Nat) (st : St) : Le st (walk p js st) := by
   induction js generalizing st with
@@ -521,53 +619,225 @@ theorem walk_le (p : Prog) (js : List Nat) (st : St) : Le st (walk p js st) := b
   | cons j js ih => exact Le.trans (visit_le p j st) (ih _)
 
 theorem walk_reg (p : Prog) (js : List Nat) (st : St) (h : Inv p st) (j : Nat) (hj : j ∈ js) (op : Op)
-    (hop : p.ops[j]? = some op) (hne : op.operands ≠ []) :
+    (hop : p.ops[j]? = some op) (hne : op.operands ≠ []) (hx : isExec st op.blk = true) :
     (walk p js st).reg.getD j false = true := by
   induction js generalizing st with
   | nil => cases hj
   | cons a js ih =>
     have hinv := visit_inv p a st h.len h.rlen h.sound
-      (fun i op hop hreg _ => h.sched i op hop hreg trivial)
+      (fun i op hop hreg _ => h.sched i op hop hreg trivial) h.execSub h.regExec
     by_cases hin : j ∈ js
-    · exact ih _ hinv hin
+    · exact ih _ hinv hin (by rw [isExec_congr (visit_exec p a st)]; exact hx)
     · rcases List.mem_cons.1 hj with rfl | h'
-      · exact (walk_le p js _).2 j (visit_reg_self p j st op hop hne h.rlen)
+      · exact (walk_le p js _).2 j (visit_reg_self p j st op hop hne h.rlen hx)
       · exact absurd h' hin
 
+/-! ### marking blocks executable after the walk -/
+
+def enableAll (p : Prog) (st : St) (bs : List Nat) : St := bs.foldl (enable p) st
+
+theorem enableAll_cons (p : Prog) (st : St) (b : Nat) (bs : List Nat) :
+    enableAll p st (b :: bs) = enableAll p (enable p st b) bs := rfl
+
+theorem enable_live (p : Prog) (st : St) (b : Nat) : (enable p st b).live = st.live := by
+  unfold enable; split <;> rfl
+
+theorem enable_reg (p : Prog) (st : St) (b : Nat) : (enable p st b).reg = st.reg := by
+  unfold enable; split <;> rfl
+
+theorem enable_trace (p : Prog) (st : St) (b : Nat) : (enable p st b).trace = st.trace := by
+  unfold enable; split <;> rfl
+
+theorem enable_wl_sub (p : Prog) (st : St) (b x : Nat) (h : x ∈ st.wl) : x ∈ (enable p st b).wl := by
+  unfold enable; split
+  · exact h
+  · simp [h]
+
+theorem isExec_enable (p : Prog) (st : St) (b c : Nat) :
+    isExec (enable p st b) c = true ↔ isExec st c = true ∨ c = b := by
+  unfold enable
+  split
+  · rename_i h
+    constructor
+    · exact Or.inl
+    · rintro (h1 | rfl)
+      · exact h1
+      · exact h
+  · simp only [isExec, List.contains_cons, Bool.or_eq_true, beq_iff_eq]
+    constructor
+    · rintro (h1 | h1)
+      · exact Or.inr h1
+      · exact Or.inl h1
+    · rintro (h1 | h1)
+      · exact Or.inr h1
+      · exact Or.inl h1
+
+theorem enable_wl_new (p : Prog) (st : St) (b x : Nat) (hb : isExec st b = false)
+    (hx : x ∈ blockOps p b) : x ∈ (enable p st b).wl := by
+  unfold enable; simp [hb, hx]
+
+theorem isLive_enable (p : Prog) (st : St) (b v : Nat) : isLive (enable p st b) v = isLive st v := by
+  unfold isLive; rw [enable_live]
+
+theorem enable_inv (p : Prog) (st : St) (b : Nat) (h : Inv p st) (hb : b ∈ p.post) :
+    Inv p (enable p st b) := by
+  refine ⟨by rw [enable_live]; exact h.len, by rw [enable_reg]; exact h.rlen, ?_, ?_, ?_, ?_⟩
+  · intro v hv; rw [isLive_enable] at hv; exact h.sound v hv
+  · intro i op hop hreg _
+    rw [enable_reg] at hreg
+    rcases h.sched i op hop hreg trivial with hw | hs
+    · exact Or.inl (enable_wl_sub p st b i hw)
+    · refine Or.inr ?_
+      intro hpre o ho hlt
+      rw [isLive_enable]
+      apply hs _ o ho hlt
+      rcases hpre with hw | ⟨r, hr, hrl⟩
+      · exact Or.inl hw
+      · exact Or.inr ⟨r, hr, by rw [isLive_enable] at hrl; exact hrl⟩
+  · intro c hc
+    rcases (isExec_enable p st b c).1 hc with h1 | rfl
+    · exact h.execSub c h1
+    · exact Or.inr hb
+  · intro i op hop hreg
+    rw [enable_reg] at hreg
+    exact (isExec_enable p st b _).2 (Or.inl (h.regExec i op hop hreg))
+
+theorem enableAll_inv (p : Prog) (bs : List Nat) (st : St) (h : Inv p st) (hbs : ∀ b ∈ bs, b ∈ p.post) :
+    Inv p (enableAll p st bs) := by
+  induction bs generalizing st with
+  | nil => exact h
+  | cons b bs ih =>
+    rw [enableAll_cons]
+    exact ih _ (enable_inv p st b h (hbs b List.mem_cons_self))
+      (fun c hc => hbs c (List.mem_cons_of_mem _ hc))
+
+theorem enableAll_le (p : Prog) (bs : List Nat) (st : St) : Le st (enableAll p st bs) := by
+  induction bs generalizing st with
+  | nil => exact Le.refl _
+  | cons b bs ih =>
+    rw [enableAll_cons]
+    refine Le.trans ?_ (ih _)
+    exact ⟨fun v h => by rw [isLive_enable]; exact h, fun i h => by rw [enable_reg]; exact h⟩
+
+theorem enableAll_wl_sub (p : Prog) (bs : List Nat) (st : St) (x : Nat) (h : x ∈ st.wl) :
+    x ∈ (enableAll p st bs).wl := by
+  induction bs generalizing st with
+  | nil => exact h
+  | cons b bs ih => rw [enableAll_cons]; exact ih _ (enable_wl_sub p st b x h)
+
+theorem enableAll_trace (p : Prog) (bs : List Nat) (st : St) :
+    (enableAll p st bs).trace = st.trace := by
+  induction bs generalizing st with
+  | nil => rfl
+  | cons b bs ih => rw [enableAll_cons, ih, enable_trace]
+
+theorem enableAll_exec_mono (p : Prog) (bs : List Nat) (st : St) (c : Nat) (h : isExec st c = true) :
+    isExec (enableAll p st bs) c = true := by
+  induction bs generalizing st with
+  | nil => exact h
+  | cons b bs ih => rw [enableAll_cons]; exact ih _ ((isExec_enable p st b c).2 (Or.inl h))
+
+theorem enableAll_exec (p : Prog) (bs : List Nat) (st : St) (c : Nat) (hc : c ∈ bs) :
+    isExec (enableAll p st bs) c = true := by
+  induction bs generalizing st with
+  | nil => cases hc
+  | cons b bs ih =>
+    rw [enableAll_cons]
+    rcases List.mem_cons.1 hc with rfl | h
+    · exact enableAll_exec_mono p bs _ c ((isExec_enable p st c c).2 (Or.inr rfl))
+    · exact ih _ h
+
+/-- the ops of a block that was not executable before are all enqueued -/
+theorem enableAll_wl_new (p : Prog) (bs : List Nat) (st : St) (c x : Nat) (hc : c ∈ bs)
+    (hn : isExec st c = false) (hx : x ∈ blockOps p c) : x ∈ (enableAll p st bs).wl := by
+  induction bs generalizing st with
+  | nil => cases hc
+  | cons b bs ih =>
+    rw [enableAll_cons]
+    by_cases hcb : c = b
+    · subst hcb
+      exact enableAll_wl_sub p bs _ x (enable_wl_new p st c x hn hx)
+    · rcases List.mem_cons.1 hc with rfl | h
+      · exact absurd rfl hcb
+      · refine ih _ h ?_
+        cases he : isExec (enable p st b) c
+        · rfl
+        · rcases (isExec_enable p st b c).1 he with h1 | h1
+          · rw [hn] at h1; cases h1
+          · exact absurd h1 hcb
+
+theorem mem_blockOps {p : Prog} {i : Nat} {op : Op} (hop : p.ops[i]? = some op) :
+    i ∈ blockOps p op.blk := by
+  have hi : i < p.ops.length := by
+    apply Classical.byContradiction; intro hn
+    simp [List.getElem?_eq_none (Nat.le_of_not_lt hn)] at hop
+  have hop' : p.ops[i] = op := by simpa [List.getElem?_eq_getElem hi] using hop
+  simp [blockOps, List.mem_filter, List.mem_range, hi, hop']
+
 theorem init_eq (p : Prog) :
-    init p = markAll p (walk p (List.range p.ops.length).reverse (init0 p)) p.exits := rfl
+    init p = enableAll p
+      (markAll p (walk p (List.range p.ops.length).reverse (init0 p)) p.exits) p.post := rfl
 
 theorem init_inv (p : Prog) : Inv p (init p) := by
   rw [init_eq]
   have hw := walk_inv p (List.range p.ops.length).reverse (init0 p) (init0_inv p)
-  refine ⟨by rw [markAll_len]; exact hw.len, by rw [markAll_reg]; exact hw.rlen, ?_, ?_⟩
+  refine enableAll_inv p _ _ ?_ (fun b hb => hb)
+  refine ⟨by rw [markAll_len]; exact hw.len, by rw [markAll_reg]; exact hw.rlen, ?_, ?_, ?_, ?_⟩
   · exact markAll_sound p _ _ hw.sound hw.len (fun v hv hlt => Live.root hlt (Or.inr (Or.inl hv)))
   · exact markAll_schedOn _ p _ _ hw.sched
+  · intro b hb; rw [isExec_congr (markAll_exec p _ _)] at hb; exact hw.execSub b hb
+  · intro i op hop hreg
+    rw [isExec_congr (markAll_exec p _ _)]
+    rw [markAll_reg] at hreg
+    exact hw.regExec i op hop hreg
 
-/-- what initialisation establishes and the rest of the run keeps -/
+/-- what initialisation establishes and the rest of the run keeps: every op with operands of an
+executable block is waiting on the worklist or has been visited (registered); every block of
+`pre`/`post` is executable; the boundary values are live -/
 structure Ready (p : Prog) (st : St) : Prop where
-  reg : ∀ i op, p.ops[i]? = some op → op.operands ≠ [] → st.reg.getD i false = true
+  cover : ∀ i op, p.ops[i]? = some op → op.operands ≠ [] → ExecP p op →
+    i ∈ st.wl ∨ st.reg.getD i false = true
+  execAll : ∀ b, b ∈ p.pre ∨ b ∈ p.post → isExec st b = true
   seeds : ∀ v ∈ p.seeds, v < p.nvals → isLive st v = true
   exits : ∀ v ∈ p.exits, v < p.nvals → isLive st v = true
-
-theorem Ready.mono {p : Prog} {st st' : St} (h : Ready p st) (hle : Le st st') : Ready p st' :=
-  ⟨fun i op hop hne => hle.2 i (h.reg i op hop hne), fun v hv hlt => hle.1 v (h.seeds v hv hlt),
-   fun v hv hlt => hle.1 v (h.exits v hv hlt)⟩
 
 theorem init_ready (p : Prog) : Ready p (init p) := by
   rw [init_eq]
   have hw := walk_inv p (List.range p.ops.length).reverse (init0 p) (init0_inv p)
-  refine ⟨?_, ?_, ?_⟩
-  · intro i op hop hne
+  have hexec : ∀ b, isExec (markAll p (walk p (List.range p.ops.length).reverse (init0 p)) p.exits) b
+      = p.pre.contains b := by
+    intro b
+    rw [isExec_congr (markAll_exec p _ _), isExec_congr (walk_exec p _ _)]
+    rfl
+  refine ⟨?_, ?_, ?_, ?_⟩
+  · intro i op hop hne hex
     have hi : i < p.ops.length := by
       apply Classical.byContradiction; intro hn
       simp [List.getElem?_eq_none (Nat.le_of_not_lt hn)] at hop
-    rw [markAll_reg]
-    exact walk_reg p _ _ (init0_inv p) i (by simp [hi]) op hop hne
+    by_cases hpre : op.blk ∈ p.pre
+    · refine Or.inr ((enableAll_le p _ _).2 i ?_)
+      rw [markAll_reg]
+      exact walk_reg p _ _ (init0_inv p) i (by simp [hi]) op hop hne
+        (by show p.pre.contains op.blk = true; simpa using hpre)
+    · have hpost : op.blk ∈ p.post := by
+        rcases hex with h | h
+        · exact absurd h hpre
+        · exact h
+      refine Or.inl (enableAll_wl_new p _ _ op.blk i hpost ?_ (mem_blockOps hop))
+      rw [hexec]; simpa using hpre
+  · intro b hb
+    by_cases hpost : b ∈ p.post
+    · exact enableAll_exec p _ _ b hpost
+    · refine enableAll_exec_mono p _ _ b ?_
+      rw [hexec]
+      rcases hb with h | h
+      · simpa using h
+      · exact absurd h hpost
   · intro v hv hlt
-    exact markAll_mono p _ _ v ((walk_le p _ _).1 v (init0_seeds p v hv hlt))
+    exact (enableAll_le p _ _).1 v
+      (markAll_mono p _ _ v ((walk_le p _ _).1 v (init0_seeds p v hv hlt)))
   · intro v hv hlt
-    exact markAll_all_live p _ _ v hv (by rw [hw.len]; exact hlt)
+    exact (enableAll_le p _ _).1 v (markAll_all_live p _ _ v hv (by rw [hw.len]; exact hlt))
 
 /-! ## The worklist loop -/
 
@@ -584,7 +854,7 @@ theorem step_inv (p : Prog) (pick : Sched) (k : Nat) (st : St) (h : Inv p st) (h
     Inv p (step p pick k st) := by
   obtain ⟨i, j, hi, hj, heq⟩ := step_facts p pick k st hne
   rw [heq]
-  refine visit_inv p j _ h.len h.rlen h.sound ?_
+  refine visit_inv p j _ h.len h.rlen h.sound ?_ h.execSub h.regExec
   intro i' op hop hreg hne'
   rcases h.sched i' op hop hreg trivial with hw | hs
   · refine Or.inl ?_
@@ -639,6 +909,43 @@ theorem run_le (p : Prog) (pick : Sched) (f k : Nat) (st : St) : Le st (run p pi
     · rename_i hne
       exact Le.trans (step_le p pick k st (by intro e; rw [e] at hne; exact hne rfl)) (ih _ _)
 
+theorem step_ready (p : Prog) (pick : Sched) (k : Nat) (st : St) (h : Ready p st) (hinv : Inv p st)
+    (hne : st.wl ≠ []) : Ready p (step p pick k st) := by
+  have hle := step_le p pick k st hne
+  obtain ⟨i, j, hi, hj, heq⟩ := step_facts p pick k st hne
+  refine ⟨?_, ?_, fun v hv hlt => hle.1 v (h.seeds v hv hlt), fun v hv hlt => hle.1 v (h.exits v hv hlt)⟩
+  · intro i' op hop hne' hex
+    rcases h.cover i' op hop hne' hex with hw | hreg
+    · by_cases hij : i' = j
+      · subst hij
+        refine Or.inr ?_
+        rw [heq]
+        exact visit_reg_self p i' _ op hop hne' hinv.rlen (h.execAll _ hex)
+      · refine Or.inl ?_
+        rw [heq]
+        apply visit_wl_sub
+        obtain ⟨m, hm, e⟩ := List.mem_iff_getElem.1 hw
+        refine List.mem_eraseIdx_iff_getElem.2 ⟨m, hm, ?_, e⟩
+        rintro rfl
+        rw [List.getElem?_eq_getElem hm] at hj
+        cases hj
+        exact hij e.symm
+    · exact Or.inr (hle.2 i' hreg)
+  · intro b hb
+    rw [heq, isExec_congr (visit_exec p j _)]
+    exact h.execAll b hb
+
+theorem run_ready (p : Prog) (pick : Sched) (f k : Nat) (st : St) (h : Ready p st) (hinv : Inv p st) :
+    Ready p (run p pick f k st) := by
+  induction f generalizing k st with
+  | zero => exact h
+  | succ f ih =>
+    rw [run_succ]; split
+    · exact h
+    · rename_i hne
+      have hne' : st.wl ≠ [] := by intro e; rw [e] at hne; exact hne rfl
+      exact ih _ _ (step_ready p pick k st h hinv hne') (step_inv p pick k st hinv hne')
+
 theorem run_wl (p : Prog) (pick : Sched) (f k : Nat) (st : St) (h : pot p st ≤ f) :
     (run p pick f k st).wl = [] := by
   induction f generalizing k st with
@@ -661,22 +968,26 @@ theorem pot_le_fuel (p : Prog) (st : St) (hlen : st.live.length = p.nvals) : pot
 /-- at a state satisfying the invariant with an empty worklist every specified-live value is live -/
 theorem complete_of_wl_nil (p : Prog) (st : St) (hinv : Inv p st) (hr : Ready p st) (hwl : st.wl = [])
     (v : Nat) (h : Live p v) : isLive st v = true := by
-  have stable : ∀ op ∈ p.ops, op.operands ≠ [] → Stable p st op := by
-    intro op hop hne
+  have stable : ∀ op ∈ p.ops, op.operands ≠ [] → ExecP p op → Stable p st op := by
+    intro op hop hne hex
     obtain ⟨i, hi, e⟩ := List.mem_iff_getElem.1 hop
     have hop' : p.ops[i]? = some op := by rw [List.getElem?_eq_getElem hi, e]
-    rcases hinv.sched i op hop' (hr.reg i op hop' hne) trivial with hw | hs
+    have hreg : st.reg.getD i false = true := by
+      rcases hr.cover i op hop' hne hex with hw | hreg
+      · rw [hwl] at hw; cases hw
+      · exact hreg
+    rcases hinv.sched i op hop' hreg trivial with hw | hs
     · rw [hwl] at hw; cases hw
     · exact hs
   induction h with
   | root hlt hroot =>
-    rcases hroot with hs | he | ⟨op, hop, hw, ho⟩
+    rcases hroot with hs | he | ⟨op, hop, hex, hw, ho⟩
     · exact hr.seeds _ hs hlt
     · exact hr.exits _ he hlt
-    · exact stable op hop (List.ne_nil_of_mem ho) (Or.inl hw) _ ho hlt
+    · exact stable op hop (List.ne_nil_of_mem ho) hex (Or.inl hw) _ ho hlt
   | step hlt hf _ ih =>
-    obtain ⟨op, hop, ho, hres⟩ := hf
-    exact stable op hop (List.ne_nil_of_mem ho) (Or.inr ⟨_, hres, ih⟩) _ ho hlt
+    obtain ⟨op, hop, hex, ho, hres⟩ := hf
+    exact stable op hop (List.ne_nil_of_mem ho) hex (Or.inr ⟨_, hres, ih⟩) _ ho hlt
 
 /-! ## Specification, continued: closure operator and operand chains -/
 
@@ -705,13 +1016,13 @@ def WF (p : Prog) : Prop :=
   (∀ v ∈ p.exits, v < p.nvals)
 
 theorem Root.lt {p : Prog} (hwf : WF p) {v : Nat} (h : Root p v) : v < p.nvals := by
-  rcases h with h | h | ⟨op, hop, _, ho⟩
+  rcases h with h | h | ⟨op, hop, _, _, ho⟩
   · exact hwf.2.1 v h
   · exact hwf.2.2 v h
   · exact hwf.1 op hop v ho
 
 theorem Feeds.lt {p : Prog} (hwf : WF p) {a b : Nat} (h : Feeds p a b) : a < p.nvals := by
-  obtain ⟨op, hop, ho, _⟩ := h
+  obtain ⟨op, hop, _, ho, _⟩ := h
   exact hwf.1 op hop a ho
 
 /-! ## run: fuel beyond termination, pop count -/
@@ -760,6 +1071,63 @@ theorem walk_trace (p : Prog) (js : List Nat) (st : St) : (walk p js st).trace =
   | cons j js ih => exact (ih _).trans (visit_trace p j st)
 
 theorem init_trace (p : Prog) : (init p).trace = [] := by
-  rw [init_eq, markAll_trace, walk_trace]; rfl
+  rw [init_eq, enableAll_trace, markAll_trace, walk_trace]; rfl
+
+/-! ## Specification without gating, and comparison of programs that differ in executability only -/
+
+/-- every op of the program sits in a block that is marked executable at some time -/
+def AllExec (p : Prog) : Prop := ∀ op ∈ p.ops, ExecP p op
+
+/-- the ungated `Root`: every op counts -/
+def RootAll (p : Prog) (v : Nat) : Prop :=
+  v ∈ p.seeds ∨ v ∈ p.exits ∨ ∃ op ∈ p.ops, op.wbd = false ∧ v ∈ op.operands
+
+/-- the ungated `Feeds` -/
+def FeedsAll (p : Prog) (a b : Nat) : Prop := ∃ op ∈ p.ops, a ∈ op.operands ∧ b ∈ op.results
+
+/-- the liveness specification of a program all of whose blocks are executable -/
+inductive LiveAll (p : Prog) : Nat → Prop
+  | root {v : Nat} : v < p.nvals → RootAll p v → LiveAll p v
+  | step {v r : Nat} : v < p.nvals → FeedsAll p v r → LiveAll p r → LiveAll p v
+
+theorem Live.toAll {p : Prog} {v : Nat} (h : Live p v) : LiveAll p v := by
+  induction h with
+  | root hlt hr =>
+    refine LiveAll.root hlt ?_
+    rcases hr with h | h | ⟨op, hop, _, hw, ho⟩
+    · exact Or.inl h
+    · exact Or.inr (Or.inl h)
+    · exact Or.inr (Or.inr ⟨op, hop, hw, ho⟩)
+  | step hlt hf _ ih =>
+    obtain ⟨op, hop, _, ho, hr⟩ := hf
+    exact LiveAll.step hlt ⟨op, hop, ho, hr⟩ ih
+
+theorem LiveAll.toLive {p : Prog} (hall : AllExec p) {v : Nat} (h : LiveAll p v) : Live p v := by
+  induction h with
+  | root hlt hr =>
+    refine Live.root hlt ?_
+    rcases hr with h | h | ⟨op, hop, hw, ho⟩
+    · exact Or.inl h
+    · exact Or.inr (Or.inl h)
+    · exact Or.inr (Or.inr ⟨op, hop, hall op hop, hw, ho⟩)
+  | step hlt hf _ ih =>
+    obtain ⟨op, hop, ho, hr⟩ := hf
+    exact Live.step hlt ⟨op, hop, hall op hop, ho, hr⟩ ih
+
+/-- `Live` only depends on which blocks are executable at some time, monotonically -/
+theorem Live.mono_exec {p q : Prog} (hn : q.nvals = p.nvals) (ho : q.ops = p.ops)
+    (hs : q.seeds = p.seeds) (he : q.exits = p.exits)
+    (hx : ∀ b, (b ∈ p.pre ∨ b ∈ p.post) → (b ∈ q.pre ∨ b ∈ q.post)) {v : Nat} (h : Live p v) :
+    Live q v := by
+  induction h with
+  | root hlt hr =>
+    refine Live.root (hn ▸ hlt) ?_
+    rcases hr with h | h | ⟨op, hop, hex, hw, hv⟩
+    · exact Or.inl (hs ▸ h)
+    · exact Or.inr (Or.inl (he ▸ h))
+    · exact Or.inr (Or.inr ⟨op, ho ▸ hop, hx _ hex, hw, hv⟩)
+  | step hlt hf _ ih =>
+    obtain ⟨op, hop, hex, hv, hr⟩ := hf
+    exact Live.step (hn ▸ hlt) ⟨op, ho ▸ hop, hx _ hex, hv, hr⟩ ih
 
 end Xdsl.Liveness
